@@ -37,6 +37,8 @@ type variant struct {
 	Tick bool `json:"tick,omitempty"` // `...` instead of "..." where the language has both
 	Wrap int  `json:"wrap,omitempty"` // LogQL: 0 log query, 1 rate[5s], 2 sum by count_over_time[1m], 3 topk/quantile
 	Big  bool `json:"big,omitempty"`  // complexity probes answer 2.5e7 (TraceQL / label-values complex path)
+	Part int  `json:"part,omitempty"` // structured values: which part holds the payload
+	Op   int  `json:"op,omitempty"`   // structured values: which operator / form
 }
 
 // outcome of placing a payload.
@@ -61,6 +63,9 @@ type position struct {
 	// alts: further literal values that legitimately derive from the intended value in this
 	// position (e.g. "<sample type>:<unit>")
 	alts func(intended string) []string
+	// structured values (structured.go): number of parts / operator forms
+	parts int
+	ops   int
 }
 
 const (
@@ -423,13 +428,6 @@ func allPositions() []*position {
 		_, err := rd.Prof.TimeSeries(ctx, []string{`{service_name="svc"}`}, []string{raw}, tf, tt)
 		return err
 	}, false)
-	prof("prof.typeid", func(rd *readersvc.Reader, sel, raw string) error {
-		_, err := rd.Prof.MergeStackTraces(ctx, `{service_name="svc"}`, "process_cpu:"+raw+":nanoseconds:cpu:nanoseconds", tf, tt)
-		return err
-	}, false)
-	// the type id has its own field syntax (split at ':', further trimming inside qryn's
-	// type-id parser): what value each field "means" is not C10's business — structure only
-	ps[len(ps)-1].kind = kFree
 	// Tempo scopes: a leading "span." / "resource." / "." of a tag or attribute name is a
 	// scope prefix, not part of the stored key (tempoService.go Values, attr_condition.go)
 	for _, p := range ps {
@@ -446,7 +444,7 @@ func allPositions() []*position {
 			}
 		}
 	}
-	return ps
+	return append(ps, structuredPositions()...)
 }
 
 // ---- acceptance of a literal -------------------------------------------------------------
